@@ -137,7 +137,11 @@ BaseDocs == (IF Mode = "c08" THEN CoreDocs \o ExtraDocs \o BigDocs ELSE CoreDocs
 \* (the last one: a JSON string whose CONTENT is a GeoJSON text - a string is not an object)
 Repl == <<Null, True, Num(1), Str("Nope"), Arr(<<>>), Obj(<<>>), Arr(<<Num(1)>>), Arr(<<Num(1), Num(2), Num(3), Num(4), Num(5)>>), P2(6,6),
           Str("{\"type\":\"Point\",\"coordinates\":[1,2]}")>>
-NOps == Len(Repl) + 6
+\* variants of a type name that are NOT type names (op Len(Repl)+7..+10 apply to the value of a "type" member only)
+TypeNames == {"Point", "LineString", "Polygon", "MultiPoint", "MultiLineString", "MultiPolygon", "GeometryCollection", "FeatureCollection", "Feature"}
+IsTypeStr(v) == v[1] = "s" /\ v[2] \in TypeNames
+TypeVariant(v, k) == Str(CASE k = 1 -> "Multi" \o v[2] [] k = 2 -> v[2] \o "s" [] k = 3 -> v[2] \o " " [] OTHER -> " " \o v[2])
+NOps == Len(Repl) + 10
 \* mutation m = <<path, op>>
 Apply(d, p, op) ==
    IF op <= Len(Repl) THEN Put(d, p, Repl[op])
@@ -147,12 +151,15 @@ Apply(d, p, op) ==
           [] op = Len(Repl) + 4 -> DupBefore(d, p, Sub(d, p))
           [] op = Len(Repl) + 5 -> DupAfter(d, p, P2(6,6))
           [] op = Len(Repl) + 6 -> ToFront(d, p)
+          [] OTHER -> IF IsTypeStr(Sub(d, p)) THEN Put(d, p, TypeVariant(Sub(d, p), op - Len(Repl) - 6)) ELSE d
 RECURSIVE ApplyAll(_,_)
 ApplyAll(d, ms) == IF ms = <<>> THEN d ELSE ApplyAll(Apply(d, ms[1][1], ms[1][2]), Tail(ms))
 Doc == IF b = 0 THEN Null ELSE ApplyAll(BaseDocs[b], mut)
 Init == b = 0 /\ mut = <<>>
 Next == \/ b = 0 /\ \E k \in 1..Len(BaseDocs) : b' = k /\ mut' = <<>>
-        \/ b > 0 /\ b <= NMutable /\ Len(mut) < MaxMut /\ \E p \in Paths(Doc) \ {<<>>} : \E op \in 1..NOps : mut' = Append(mut, <<p, op>>) /\ b' = b
+        \/ b > 0 /\ b <= NMutable /\ Len(mut) < MaxMut /\ \E p \in Paths(Doc) \ {<<>>} : \E op \in 1..NOps :
+                                  /\ (op > Len(Repl) + 6 => IsTypeStr(Sub(Doc, p)))
+                                  /\ mut' = Append(mut, <<p, op>>) /\ b' = b
 Spec == Init /\ [][Next]_vars
 \* base documents are well formed: they must be accepted
 BaseAccepted == b > 0 /\ mut = <<>> => Verdict(BaseDocs[b]) = (IF b > Len(BaseDocs) - Len(NearDocs) THEN "rej" ELSE "acc")
